@@ -1136,6 +1136,10 @@ def offgrid_probe(job, S, V, ex, res, real_outcome, known, replay_dir, budget=12
         r, m = ex.model_of(*cons, *excl, t)
         if r == z3.sat and exact_on_grid(S, m):
             models.append(m)
+    # the solver's own boundary models are as degenerate as the boundary allows (everything 0, which no scaling moves off the
+    # grid): add, per boundary, one model whose inputs are pulled towards pseudo-random values
+    models += [m for m in _scattered_models(V, list(V.assumptions) + cons + excl, [[t] for t in targets[:budget // 2]],
+                                            getattr(job, "name", "") + "/offgrid", per_path=1) if exact_on_grid(S, m)]
     seen = set()
     for m in models:
         Sc0 = concretize(S, m)
